@@ -415,6 +415,21 @@ def _partial_base(source, event, x="D_x", y="D_y"):
 PARTIALS = [{}, {"x": "FX"}, {"event": "FE"}, {"source": "FS"}, {"y": "FY", "x": "FX2"}]
 
 
+def _shared_decorator(fn):
+    """An ordinary decorator using functools.wraps: every decorated callback shares the wrapper's
+    code object and copies the wrapped function's qualified name."""
+    if inspect.iscoroutinefunction(fn):
+        @functools.wraps(fn)
+        async def awrapper(*args, **kwargs):
+            return await fn(*args, **kwargs)
+        return awrapper
+
+    @functools.wraps(fn)
+    def wrapper(*args, **kwargs):
+        return fn(*args, **kwargs)
+    return wrapper
+
+
 def family_callable(i, variant):
     """variant: function | method | partial"""
     src = FAMILY[i].replace(": pass", ":\n    _l = dict(locals()); _l.pop('self', None); return _l")
@@ -425,6 +440,8 @@ def family_callable(i, variant):
         exec(src, ns)   # noqa: S102
         return ns["L"]().cb
     exec(src, ns)   # noqa: S102
+    if variant == "wrapped":
+        return _shared_decorator(ns["cb"])
     if variant == "partial":
         kw = {}
         params = inspect.signature(ns["cb"]).parameters
@@ -442,7 +459,7 @@ def check_independence(res):
               (("p0",), {"args": "U_args", "kwargs": "U_kwargs"})]
     from statemachine.signature import SignatureAdapter
     clear = getattr(getattr(SignatureAdapter.from_callable, "__func__", None), "clear_cache", None)
-    pairs = [(v, i, j) for v in ("function", "method", "partial")
+    pairs = [(v, i, j) for v in ("function", "method", "partial", "wrapped")
              for i, j in itertools.permutations(range(len(FAMILY)), 2)]
     pairs += [("same-fn-partial", i, j) for i, j in itertools.permutations(range(len(PARTIALS)), 2)]
     for (variant, i, j) in pairs:
